@@ -115,3 +115,38 @@ ben("c14-max-builtin", ["C14"], [(CL, "            if minimum_reporting_units > 
 ben("c14-len-instead-of-shape", ["C14"], [(CL, "n_reporting_expected_units = reporting_units.shape[0]", "n_reporting_expected_units = len(reporting_units)")])
 ben("c14-gate-flipped", ["C14"], [(CL, "if n_reporting_expected_units < minimum_reporting_units_max:", "if minimum_reporting_units_max > n_reporting_expected_units:")])
 ben("c14-min-formula-rewritten", ["C14"], [(M + "NonparametricElectionModel.py", "return math.ceil(-1 * (alpha + 1) / (alpha - 1))", "return math.ceil((1 + alpha) / (1 - alpha))")])
+
+# ------------------------------------------------------------------------------------------- C19
+S3 = H + "s3.py"
+VD = D + "VersionedData.py"
+mut("c19-drop-page", "C19", [(S3, "            versions += self.list_versions(", "            versions = self.list_versions(")], "C19.R1")
+mut("c19-stop-gt", "C19", [(S3, 'versions[-1]["LastModified"] >= self.start_date)', 'versions[-1]["LastModified"] > self.start_date)')], "C19.R2")
+mut("c19-first-not-last", "C19", [(S3, 'versions[-1]["LastModified"] >= self.start_date)', 'versions[0]["LastModified"] >= self.start_date)')], "C19.R2")
+mut("c19-ignore-truncated", "C19", [(S3, '            response["IsTruncated"]\n            and len(versions) > 0', '            len(versions) > 0')], "C19.R2")
+mut("c19-one-marker", "C19", [(S3, 'VersionIdMarker=response["NextVersionIdMarker"],', 'VersionIdMarker=response["NextKeyMarker"],')], "C19.R3")
+mut("c19-marker-dropped", "C19", [(S3, '                VersionIdMarker=response["NextVersionIdMarker"],\n', '')], "C19.R3")
+mut("c19-no-forward", "C19", [(S3, "Prefix=path, **kwargs)", "Prefix=path)")], "C19.R3")
+mut("c19-end-exclusive", "C19", [(S3, 'v["LastModified"] <= self.end_date', 'v["LastModified"] < self.end_date')], "C19.R4")
+mut("c19-start-exclusive", "C19", [(S3, 'lambda v: v["LastModified"] >= self.start_date', 'lambda v: v["LastModified"] > self.start_date')], "C19.R4")
+mut("c19-end-filter-only-page", "C19", [(S3, "        if self.end_date is not None:\n            versions = list(filter(lambda v: v[\"LastModified\"] <= self.end_date, versions))\n        return versions",
+                                          "        return versions"),
+                                         (S3, "        versions = []\n        if \"Versions\" in response:\n            versions = response[\"Versions\"]\n",
+                                          "        versions = []\n        if \"Versions\" in response:\n            versions = response[\"Versions\"]\n        if self.end_date is not None:\n            versions = list(filter(lambda v: v[\"LastModified\"] <= self.end_date, versions))\n")], "C19")
+mut("c19-empty-no-none", "C19", [(S3, "        if len(versions) == 0:\n            LOG.info(f\"No versions found for {path}\")\n            return None", "        if versions is None:\n            LOG.info(f\"No versions found for {path}\")\n            return None")], "C19.R5")
+mut("c19-sample-offset", "C19", [(S3, "for version in versions[::sample]:", "for version in versions[1::sample]:")], "C19.R6")
+mut("c19-sample-prefix", "C19", [(S3, "for version in versions[::sample]:", "for version in versions[:sample]:")], "C19.R6")
+mut("c19-stamp-first-version", "C19", [(S3, 'pd.to_datetime(version["LastModified"])', 'pd.to_datetime(versions[0]["LastModified"])')], "C19.R6")
+mut("c19-no-tz", "C19", [(S3, 'pd.to_datetime(version["LastModified"]).astimezone(tz=tz.gettz(self.tz))', 'pd.to_datetime(version["LastModified"])')], "C19.R6")
+mut("c19-tz-utc", "C19", [(S3, 'astimezone(tz=tz.gettz(self.tz))', 'astimezone(tz=tz.gettz("UTC"))')], "C19.R6")
+mut("c19-narrow-except", "C19", [(S3, "            except Exception as e:\n                LOG.error", "            except TimeoutError as e:\n                LOG.error")], "C19.R7")
+mut("c19-reraise", "C19", [(S3, '                LOG.error(f"Error downloading {version[\'VersionId\']}: {e}")\n', '                LOG.error(f"Error downloading {version[\'VersionId\']}: {e}")\n                raise\n')], "C19.R7")
+mut("c19-yield-outside-try", "C19", [(S3, "                future.result()\n                yield version, data\n            except Exception as e:\n                LOG.error(f\"Error downloading {version['VersionId']}: {e}\")\n",
+                                       "                future.result()\n            except Exception as e:\n                LOG.error(f\"Error downloading {version['VersionId']}: {e}\")\n            yield version, data\n")], "C19.R7")
+mut("c19-propagate-none-lost", "C19", [(VD, "        if data is None:\n            self.data = data\n            return data\n", "")], "C19.R5")
+mut("c19-client-keeps-handler", "C19", [(CL, "            if versioned_results is None:\n                versioned_data_handler = None\n", "            if versioned_results is None:\n                LOG.info(\"no versioned results\")\n")], "C19.R5")
+mut("c19-sample-not-forwarded", "C19", [(VD, "data = self.s3_client.get(path, self.sample)", "data = self.s3_client.get(path)")], "C19.R6")
+mut("c19-wrong-buffer", "C19", [(S3, "        future = self.manager.download(self.bucket_name, path, data, extra_args=kwargs, subscribers=subscribers)", "        future = self.manager.download(self.bucket_name, path, io.BytesIO(), extra_args=kwargs, subscribers=subscribers)")], "C19.R6")
+ben("c19-nonempty-truthy", ["C19"], [(S3, "            and len(versions) > 0\n", "            and versions\n")])
+ben("c19-get-default", ["C19"], [(S3, '        versions = []\n        if "Versions" in response:\n            versions = response["Versions"]\n', '        versions = response.get("Versions", [])\n')])
+ben("c19-listcomp-filter", ["C19"], [(S3, 'versions = list(filter(lambda v: v["LastModified"] <= self.end_date, versions))', 'versions = [v for v in versions if v["LastModified"] <= self.end_date]')])
+ben("c19-not-versions", ["C19"], [(S3, "        if len(versions) == 0:\n            LOG.info(f\"No versions found", "        if not versions:\n            LOG.info(f\"No versions found")])
